@@ -188,6 +188,9 @@ func firstDiff(a, b string) string {
 }
 
 var c12Sel = []string{
+	// partition keys that are the same value object in neighbouring records (NULL, a boolean, cells of one joined record)
+	"SELECT id, ROW_NUMBER() OVER (PARTITION BY NULLIF(k, k) ORDER BY id) AS rn, COUNT(*) OVER (PARTITION BY v IS NULL) AS c, SUM(v) OVER (PARTITION BY CASE WHEN v > 100000 THEN 'x' END) AS sv FROM t",
+	"SELECT t.id, u.id AS uid, COUNT(*) OVER (PARTITION BY u.k, u.w) AS c, ROW_NUMBER() OVER (PARTITION BY u.id ORDER BY t.id) AS rn FROM u JOIN t ON t.k = u.k",
 	"SELECT id, v FROM t ORDER BY id",
 	"SELECT id, ROW_NUMBER() OVER (ORDER BY id) AS rn, SUM(v) OVER (ORDER BY id) AS rs FROM t",
 	"SELECT id, k FROM t ORDER BY id DESC LIMIT 7",
